@@ -223,5 +223,152 @@ theorem release_on_finish (s : Sys) (now : Time) (orc : Oracle) (oid : Oid)
   simp [runAlgorithm, updPlan, halg, Alg.queueRun, Alg.finishStatus, Buffer.remove, hsch, hq,
     addSch, addBuf, hobs]
 
+/-! ### the negation of the full statement
+
+`runUntil` takes a fuel; the full statement quantifies over it.  A run whose
+every `env.run(now + 1)` segment ended by itself (not by running out of fuel)
+is the same for every larger fuel, so the claim "no fuel and no number of steps
+gives a finished, exception-free run" reduces to finitely many evaluations. -/
+
+/-- the segment ended by itself: halted, no event left, next event not before
+`u`, or nothing to step -/
+def simStopped (env : SimEnv) (u : Time) (k : SimState) : Bool :=
+  k.st.halted || match k.peek with
+    | none => true
+    | some e => !(decide (e.time < u)) || (k.step (simHandler env)).isNone
+
+theorem runUntil_stable (env : SimEnv) (u : Time) :
+    ∀ (f : Nat) (k : SimState), simStopped env u (SimState.runUntil env u f k) = true →
+      ∀ f', f ≤ f' → SimState.runUntil env u f' k = SimState.runUntil env u f k := by
+  intro f
+  induction f with
+  | zero =>
+    intro k hs f' _
+    simp only [SimState.runUntil] at hs ⊢
+    cases f' with
+    | zero => rfl
+    | succ f' =>
+      simp only [SimState.runUntil]
+      unfold simStopped at hs
+      by_cases hh : k.st.halted = true
+      · simp [hh]
+      · simp only [hh, Bool.false_eq_true, if_false]
+        cases hp : k.peek with
+        | none => rfl
+        | some e =>
+          simp only
+          by_cases hlt : e.time < u
+          · simp only [hlt, if_true]
+            cases hst : k.step (simHandler env) with
+            | none => rfl
+            | some k1 => simp [hh, hp, hlt, hst] at hs
+          · simp [hlt]
+  | succ f ih =>
+    intro k hs f' hle
+    obtain ⟨f'', rfl⟩ : ∃ f'', f' = f'' + 1 := ⟨f' - 1, by omega⟩
+    simp only [SimState.runUntil] at hs ⊢
+    by_cases hh : k.st.halted = true
+    · simp [hh]
+    · simp only [hh, Bool.false_eq_true, if_false] at hs ⊢
+      cases hp : k.peek with
+      | none => rfl
+      | some e =>
+        simp only [hp] at hs ⊢
+        by_cases hlt : e.time < u
+        · simp only [hlt, if_true] at hs ⊢
+          cases hst : k.step (simHandler env) with
+          | none => rfl
+          | some k1 =>
+            simp only [hst] at hs ⊢
+            exact ih k1 hs f'' (by omega)
+        · simp [hlt]
+
+/-- every segment of the run with fuel `F` ended by itself -/
+def checkRun (env : SimEnv) (F : Nat) : Nat → Nat → SimState → Bool
+  | 0, _, _ => true
+  | steps + 1, now, k =>
+    if k.st.halted then true else if k.st.isFinished then true
+    else simStopped env (now + 1 : Nat) (SimState.runUntil env (now + 1 : Nat) F k) &&
+      checkRun env F steps (now + 1) (SimState.runUntil env (now + 1 : Nat) F k)
+
+theorem runToCompletion_stable (env : SimEnv) (F f : Nat) (hle : F ≤ f) :
+    ∀ (steps now : Nat) (k : SimState), checkRun env F steps now k = true →
+      SimState.runToCompletion env f steps now k = SimState.runToCompletion env F steps now k := by
+  intro steps
+  induction steps with
+  | zero => intro now k _; rfl
+  | succ n ih =>
+    intro now k hc
+    simp only [checkRun, SimState.runToCompletion] at hc ⊢
+    by_cases hh : k.st.halted = true
+    · simp [hh]
+    · by_cases hf : k.st.isFinished = true
+      · simp [hh, hf]
+      · simp only [hh, hf, Bool.false_eq_true, if_false, Bool.and_eq_true] at hc ⊢
+        rw [runUntil_stable env _ F k hc.1 f hle]
+        exact ih _ _ hc.2
+
+/-- the witness: one machine, one observation of 8 steps × 10 units on a hot
+buffer of 100 -/
+def negWitness : Sys :=
+  { machines := [⟨0, 10, 2⟩], totalArrays := 4, maxIngest := 1, alg := .queue,
+    cl := Cluster.init [0], buf := Buffer.init 100 20 100 5,
+    obs := [{ id := 0, est := 0, duration := 8, demand := 1, rate := 10, ingestDemand := 1,
+              wf := { nodes := [(0, 10, 0)], edges := [], topo := [0] } }] }
+
+theorem negWitness_wf : WFConfig negWitness := by
+  refine ⟨by decide, rfl, by decide, ?_, ?_⟩
+  · simp [negWitness]
+  · simp [negWitness]
+
+theorem negWitness_feasible : Feasible negWitness := by
+  simp [Feasible, negWitness, Buffer.init]
+
+set_option maxRecDepth 100000 in
+theorem negWitness_bound : serialBound negWitness = 47 := by decide +kernel
+
+set_option maxRecDepth 100000 in
+/-- with fuel 10 every segment ends by itself, and the run has raised -/
+theorem negWitness_large : ∀ steps < 48,
+    checkRun {} 10 (steps + 1) 0 (SimState.start negWitness) = true ∧
+    ¬ ((SimState.runToCompletion {} 10 (steps + 1) 0 (SimState.start negWitness)).1.st.isFinished = true ∧
+       (SimState.runToCompletion {} 10 (steps + 1) 0 (SimState.start negWitness)).1.st.crashed = none) := by
+  decide +kernel
+
+set_option maxRecDepth 100000 in
+theorem negWitness_small : ∀ fuel < 10, ∀ steps < 48,
+    ¬ ((SimState.runToCompletion {} fuel (steps + 1) 0 (SimState.start negWitness)).1.st.isFinished = true ∧
+       (SimState.runToCompletion {} fuel (steps + 1) 0 (SimState.start negWitness)).1.st.crashed = none) := by
+  decide +kernel
+
+theorem terminates_neg :
+    ¬ (∀ (s0 : Sys) (env : SimEnv), WFConfig s0 → Feasible s0 →
+      ∃ steps fuel, steps ≤ serialBound s0 ∧
+        (SimState.runToCompletion env fuel (steps + 1) 0 (SimState.start s0)).1.st.isFinished = true ∧
+        (SimState.runToCompletion env fuel (steps + 1) 0 (SimState.start s0)).1.st.crashed = none) := by
+  intro h
+  obtain ⟨steps, fuel, hs, hfin, hcr⟩ := h negWitness {} negWitness_wf negWitness_feasible
+  rw [negWitness_bound] at hs
+  have hlt : steps < 48 := by omega
+  by_cases hf : fuel < 10
+  · exact negWitness_small fuel hf steps hlt ⟨hfin, hcr⟩
+  · have hl := negWitness_large steps hlt
+    rw [runToCompletion_stable {} 10 fuel (by omega) _ _ _ hl.1] at hfin hcr
+    exact hl.2 ⟨hfin, hcr⟩
+
+/-! ### an evaluated example -/
+
+set_option maxRecDepth 100000 in
+theorem example_terminates :
+    let wf : Workflow := { nodes := [(0, 20, 0), (1, 10, 0)], edges := [(0, 1, 4)], topo := [0, 1] }
+    let s0 : Sys :=
+      { machines := [⟨0, 10, 2⟩, ⟨1, 5, 4⟩], totalArrays := 4, maxIngest := 1, alg := .queue,
+        cl := Cluster.init [0, 1], buf := Buffer.init 100 10 100 5,
+        obs := [{ id := 0, est := 0, duration := 2, demand := 2, rate := 3, ingestDemand := 1, wf := wf },
+                { id := 1, est := 1, duration := 2, demand := 2, rate := 2, ingestDemand := 1, wf := wf }] }
+    let r := SimState.runToCompletion {} 100000 (serialBound s0 + 1) 0 (SimState.start s0)
+    r.1.st.isFinished = true ∧ r.1.st.crashed = none ∧ r.2 ≤ serialBound s0 := by
+  decide +kernel
+
 end Sys
 end Topsim
